@@ -136,10 +136,14 @@ def merge_weights(ex, st, eff, blocks):
         if e[0] == "kernel" and e[1] in MERGE_TABLE:
             d, s = MERGE_TABLE[e[1]]
             db, sb = _helpers.arr_block(e[2][d]), _helpers.arr_block(e[2][s])
-            if db not in w or sb not in w:
-                return None, None
-            w[db] = w[db] + w[sb]
-            used.append((db, sb))
+        elif e[0] == "merge-call":
+            db, sb = e[1], e[2]
+        else:
+            continue
+        if db not in w or sb not in w:
+            return None, None
+        w[db] = w[db] + w[sb]
+        used.append((db, sb))
     return w, used
 
 
@@ -235,6 +239,8 @@ def check_parallel_merging(chk, ex, found, kinds=("hll", "cms", "hh")):
                     if e[0] == "kernel" and e[1] in MERGE_TABLE:
                         d, s = MERGE_TABLE[e[1]]
                         cur.append((_helpers.arr_block(e[2][d]), _helpers.arr_block(e[2][s])))
+                    if e[0] == "merge-call":
+                        cur.append((e[1], e[2]))
                     if e[0] == "put" and cur:
                         rounds.append(cur)
                         cur = []
